@@ -129,12 +129,14 @@ def build(reconnect_opt, real_noise=False):
         @L.EventCallback(YowNetworkLayer.EVENT_STATE_CONNECTED)
         def onConnected(self, ev):
             w.log.append("announced-up")
-            return YowInterfaceLayer.onConnected(self, ev)
+            base = getattr(YowInterfaceLayer, "onConnected", None)          # (the stock handler, if the class has one)
+            return base(self, ev) if base is not None else None
 
         @L.EventCallback(YowNetworkLayer.EVENT_STATE_DISCONNECTED)
         def onDisconnected(self, ev):
             w.log.append("announced-down")
-            return YowInterfaceLayer.onDisconnected(self, ev)
+            base = getattr(YowInterfaceLayer, "onDisconnected", None)
+            return base(self, ev) if base is not None else None
 
     class CoderDouble(L.YowLayer):
         """stands for the coder layer above the real noise layer: stanzas travel as objects; a failure frame built by the noise layer is decoded"""
